@@ -605,6 +605,9 @@ struct Gen<'a> {
     rng: &'a mut Rng,
     steps: Vec<Value>,
     n: usize,
+    /// the option object built last uses the cosine metric: empty (all-zero) feature vectors are outside its domain
+    /// (cosine similarity of a zero vector is undefined), so none are generated for trackers built from it
+    cosine: bool,
 }
 impl<'a> Gen<'a> {
     fn name(&mut self, p: &str) -> String {
@@ -840,6 +843,7 @@ impl<'a> Gen<'a> {
     }
     fn options(&mut self) -> String {
         let o = self.name("o");
+        self.cosine = false;
         push!(self, json!(["opts_new", o]));
         push!(self, json!(["opts_repr", null, o]));
         let all = ["max_idle_epochs", "kept_history_length", "visual_min_votes", "visual_metric", "spatio_temporal_constraints", "positional_metric", "visual_minimal_track_length", "visual_minimal_area",
@@ -878,8 +882,10 @@ impl<'a> Gen<'a> {
                 "visual_min_votes" => json!(1 + self.rng.usize(3)),
                 "visual_metric" => {
                     if self.rng.chance(0.5) {
+                        self.cosine = false;
                         json!(["euclidean", *self.rng.pick(&[0.25f64, 0.5, 1.0])])
                     } else {
+                        self.cosine = true;
                         json!(["cosine", *self.rng.pick(&[0.5f64, 0.75, 0.875])])
                     }
                 }
@@ -950,7 +956,7 @@ impl<'a> Gen<'a> {
                 if self.rng.chance(0.85) {
                     let ft: Vec<f64> = o.2.iter().map(|p| ((*p as f64 + self.rng.normal() * 0.02) as f32) as f64).collect();
                     // now and then an EMPTY feature vector: a real (zero-padded) feature, not "no feature"
-                    if self.rng.chance(0.05) {
+                    if self.rng.chance(0.05) && !self.cosine {
                         d.insert("feature".into(), json!(Vec::<f64>::new()));
                     } else {
                         d.insert("feature".into(), json!(ft));
@@ -1069,7 +1075,7 @@ impl<'a> Gen<'a> {
 }
 
 fn gen_script(rng: &mut Rng) -> Vec<Value> {
-    let mut g = Gen { rng, steps: vec![], n: 0 };
+    let mut g = Gen { rng, steps: vec![], n: 0, cosine: false };
     let mut parts: Vec<u8> = vec![0, 1, 2, 3, 3];
     g.rng.shuffle(&mut parts);
     let k = 2 + g.rng.usize(3);
